@@ -56,6 +56,9 @@ CLAIMED = {
  "C14": ("Bounded model checking of the real ICMPv6 spoofing handler on a real Session: StartHunt/StopHunt validation and idempotence over every hunt list of <= 2 entries; the spoof loop sends forged NAs (source = router link-local, target-LLA option = host MAC, override set) only to hunted link-local hosts per known router, and stops with the corrective NA carrying the router's real MAC after StopHunt / nothing after Close; ProcessPacket of an arbitrary valid Router Advertisement (every subset of prefix / MTU / RDNSS / source-LLA / single-name DNSSL options, all values symbolic) records exactly what an independent decoder reads from the packet bytes (flags, lifetimes, prefix, MTU, DNS servers, search list, MAC) and keeps no pointer into the packet buffer.",
          "Trusted: go/ssa, gse semantics (sequential, StopHunt/Close at iteration boundaries), z3, the harness's reference RA decoder, Checksum uninterpreted (C15). Multi-label / multi-name DNSSL and route-information contents outside.",
          "DESIGN.md §4 C14", "bounded symbolic execution of the handler, SMT-decided differential against a reference RA decoder"),
+ "C17": ("Bounded model checking of the real DNS decoders (DecodeQuestion, DNSEntry.DecodeAnswers, decodeName) and of the real naming handler (ProcessDNS / DNSFind through frames parsed by the real Session.Parse, ProcessMDNS, ProcessNBNS) on messages written by an independent builder with concrete structure and symbolic label, address, TTL and id bytes: question name, A / AAAA / CNAME / PTR records (compressed, pointer-chained, longest legal name, 127 labels, names beyond the scratch buffer) equal what the builder wrote; nine malformation classes and truncation at every offset are rejected with an error and terminate; mDNS A/AAAA extraction in every section with interleaved unknown / NSEC records; NBNS node status names; NameEntry.Merge and the five Host.Update*Name functions never erase, report a change exactly when an attribute changed and are idempotent, over symbolic attribute strings.",
+         "Trusted: go/ssa, gse semantics, z3, the builder in harness/shared/dnsbuild.go. Message structure is concrete per shape (not arbitrary byte strings); golang.org/x/net/dns/dnsmessage is executed symbolically as part of the mDNS/NBNS paths.",
+         "DESIGN.md §4 C17", "bounded symbolic execution, SMT-decided differential against an independent message builder; merge algebra over symbolic strings"),
 }
 
 NOT_APPLICABLE = {
